@@ -325,6 +325,8 @@ func (v *VM) exec() {
 			}
 			if s.value != nil {
 				v.stack[len(v.stack)-1] = s.Append(vs...)
+			} else if len(vs) == 0 {
+				v.stack[len(v.stack)-1] = s // appending nothing to a nil slice leaves it nil
 			} else {
 				vsCopy := make([]Value, len(vs))
 				copy(vsCopy, vs)
